@@ -151,22 +151,32 @@ def check(ctx: Ctx) -> list[RuleResult]:
     setf = repo.func("ramses_tx.command.Command.set_schedule_fragment")
     r3.instances += 1
     r3.nontrivial += 1
-    pay = [n for n in own_nodes(setf.node) if isinstance(n, ast.Assign) and norm(n.targets[0]) == "payload"]
-    hdr = [n for n in own_nodes(setf.node) if isinstance(n, ast.Assign) and norm(n.targets[0]) == "header"]
-    okshape = False
-    if pay and hdr and norm(pay[0].value) == "f'{header}{frag_length:02X}{frag_num:02X}{frag_cnt:02X}{fragment}'" and norm(hdr[0].value) == "'00230008' if zon_idx == FA else f'{zon_idx}200008'":
-        from ..rx import Alt, Rep, Shape, HEXSET
+    # the payload shape is computed by the C03 shape interpreter from the constructor's source, with two stated assumptions:
+    # `fragment` is 1..width/2 hex octets (what _struct_pack's chunking produces, checked above), and the zone index is one the
+    # decoder accepts (`0[0-9A-F]`; out-of-domain indexes are finding F4 of C03)
+    from ..rx import Rep, is_unknown, substitute
+    from .c03_shapes import Interp
 
-        zone = Cat(Lit("0"), Hex(1))
-        shape = Cat(Alt(Lit("00230008"), Cat(zone, Lit("200008"))), Hex(2), Hex(2), Hex(2), Rep(Hex(2), 1, (width or 82) // 2))
-        w = included(shape_dfa(shape), regex_dfa(schema["0404"][" W"]))
+    it = Interp(ctx, setf, preset={"fragment": Rep(Hex(2), 1, (width or 82) // 2)})
+    it.run()
+    okshape = False
+    shapes = []
+    for call, env in it.calls:
+        pe = (call.args[3] if len(call.args) > 3 else None) if call.func.attr == "from_attrs" else (call.args[2] if len(call.args) > 2 else None)  # type: ignore[union-attr]
+        if pe is not None:
+            shapes.append(it.shape(pe, env))
+    if not shapes or any(is_unknown(sh) for sh in shapes):
+        raise AnalysisError(f"set_schedule_fragment: payload shape not derivable ({[str(sh)[:60] for sh in shapes]})")
+    for sh in shapes:
+        sh2 = substitute(sh, "_check_idx", Cat(Lit("0"), Hex(1)))
+        w = included(shape_dfa(sh2), regex_dfa(schema["0404"][" W"]))
         if w is None:
             okshape = True
-            r3.ok({"W|0404 shape": str(shape)[:90], "regex": schema["0404"][" W"]})
+            r3.ok({"W|0404 shape": str(sh2)[:110], "regex": schema["0404"][" W"]})
         else:
             r3.fail("set_schedule_fragment:shape", setf.loc(), f"set_schedule_fragment can build a W|0404 payload the decoder rejects, e.g. {w!r}")
     if not okshape and not r3.findings:
-        raise AnalysisError("set_schedule_fragment: payload expression no longer in the expected form (re-derive the shape)")
+        raise AnalysisError("set_schedule_fragment: payload shape not checked")
     r3.instances += 1
     r3.nontrivial += 1
     fl = [n for n in own_nodes(setf.node) if isinstance(n, ast.Assign) and norm(n.targets[0]) == "frag_length"]
